@@ -1,4 +1,36 @@
-From KS Require Import lib.Base lib.PitrWire model.Pitr.
+(* C08 -- point-in-time restore copies an exact, valid prefix or nothing.
+   Only statements closed by [exact]; proofs live in proofs/PitrProofs.v.
+   The checksum function is universally quantified ([crc]). *)
+From KS Require Import lib.Base lib.PitrWire model.Pitr proofs.PitrProofs.
 Open Scope Z_scope.
-Example C08_nonvacuous : zigzag 3 = -2.
-Proof. vm_compute. reflexivity. Qed.
+
+(* (3) a failed restore leaves no object under the target prefix (space 1) that did
+       not exist before, unless a delete call failed -- for every initial object
+       map, every fault sequence (one bit per S3 call: list/get/put/delete), every
+       cutoff and partition list. *)
+Theorem C08_rollback : forall crc s0 faults T parts w',
+  restore crc (mkW s0 faults false) T parts = (Err, w') ->
+  w_delfail w' = false ->
+  forall k, k_space k = 1 -> present (w_objs w') k -> present s0 k.
+Proof. exact restore_rollback. Qed.
+Print Assumptions C08_rollback.
+
+(* non-vacuity: a two-record batch (timestamps 1000, 1002) restored to T = 1001 is
+   rewritten to one record; the fault-free run creates both target objects; a fault
+   at the index upload (call 7) fails the restore and the rollback removes the
+   uploaded segment again. *)
+Definition ex_batch : bytes :=
+  be_enc 8 0 ++ be_enc 4 63 ++ [0;0;0;0;2] ++ [0;0;0;0] ++ [0;0] ++ be_enc 4 1 ++ be_enc 8 1000 ++ be_enc 8 1002 ++
+  List.repeat 255 14 ++ be_enc 4 2 ++ [12;0;0;0;1;0;0] ++ [12;0;4;2;1;0;0].
+Definition ex_store : store :=
+  let a := build_segment crc32c 1 [ex_batch] 999 in [(seg_key 0 0 0, a_seg a); (idx_key 0 0 0, a_idx a)].
+
+Example C08_nonvacuous :
+  (let '(r, w) := restore crc32c (mkW ex_store [] false) 1001 [] in
+   r = Ok [(0, 1, 0)] /\ present (w_objs w) (seg_key 1 0 0) /\ present (w_objs w) (idx_key 1 0 0)) /\
+  (let '(r, w) := restore crc32c (mkW ex_store (List.repeat false 7 ++ [true]) false) 1001 [] in
+   r = Err /\ w_delfail w = false /\ s_get (w_objs w) (seg_key 1 0 0) = None) /\
+  (exists b', truncate_batch crc32c ex_batch 1001 = Ok (Some b', true) /\ zlen b' = 68).
+Proof.
+  vm_compute. repeat split; try discriminate. eexists; split; reflexivity.
+Qed.
